@@ -198,8 +198,10 @@ impl Ctx {
 		}
 		let a = p as usize;
 		let inside = a >= self.base && a - self.base <= self.len && n <= self.len - (a - self.base);
-		// static constants (CStr::empty and the like) live outside the mapping and are tiny
-		assert!(inside || n <= 1, "harness: returned region outside the buffer: {} off={} len={}", what, a.wrapping_sub(self.base) as isize, n);
+		// static constants (CStr::empty and the like) are tiny and live in the binary's data, far away from the mapping: a
+		// one-byte region NEXT TO the buffer (one past its end, one before its start) is an out-of-bounds borrow
+		let far = a.wrapping_add(0x10_0000) < self.base || a > self.base.wrapping_add(self.len).wrapping_add(0x10_0000);
+		assert!(inside || (n <= 1 && far), "harness: returned region outside the buffer: {} off={} len={}", what, a.wrapping_sub(self.base) as isize, n);
 		assert!(a % align == 0, "harness: misaligned reference returned: {} addr%{}={}", what, align, a % align);
 	}
 	fn bytes(&mut self, what: &str, s: &[u8]) {
